@@ -769,9 +769,13 @@ class Manager:
         if not self.running:
             return
 
-        self._running = False
+        # The flag and the stopped event change together: run() (another
+        # thread) must never see the cleared flag before the event is queued,
+        # or it may return without dispatching it.
+        with self.root._lock:
+            self._running = False
 
-        self.fire(stopped(self))
+            self.fire(stopped(self))
 
         if self.root._executing_thread is None:
             for _ in range(3):
@@ -943,7 +947,10 @@ class Manager:
         self.fire(started(self))
 
         try:
-            while self.running or len(self._queue):
+            while True:
+                with self.root._lock:
+                    if not (self.running or len(self._queue)):
+                        break
                 self.tick()
             # Fading out, handle remaining work from stop event
             for _ in range(3):
